@@ -2,7 +2,7 @@
 import ast
 
 from .. import guards, rules, typestate
-from ..model import AnalysisError, call_name, loc, unparse
+from ..model import AnalysisError, call_name, loc, unparse, body_stmts
 from ..rules import family_views, witness
 
 EXPLANATION = (
@@ -30,7 +30,7 @@ def chooser(ctx, P, views):
     ob = ctx.ob("CHOOSE", "choose_next_customer: for q in self.individuals (index order): waiting = [i for i in q if not i.server]; first non-empty -> service_discipline(waiting, now)")
     for view in views:
         cls, fn = view.method("choose_next_customer")
-        body = [s for s in fn.body if not (isinstance(s, ast.Expr) and isinstance(s.value, ast.Constant))]
+        body = body_stmts(fn)
         ok, why = False, "shape not recognised"
         if body and isinstance(body[0], ast.For) and len(body) <= 2:
             lp = body[0]
@@ -39,7 +39,7 @@ def chooser(ctx, P, views):
                 why = "scan is over `%s`, not over self.individuals in index order" % unparse(lp.iter)
             else:
                 comp = None
-                for s in lp.body:
+                for s in body_stmts(lp):
                     if isinstance(s, ast.Assign) and isinstance(s.value, ast.ListComp):
                         comp = s
                 rets = [x for x in ast.walk(lp) if isinstance(x, ast.Return)]
@@ -52,12 +52,13 @@ def chooser(ctx, P, views):
                     filt = [unparse(c).replace(" ", "") for c in g.ifs]
                     r = rets[0]
                     under = r._parent
-                    cond = unparse(under.test).replace(" ", "") if isinstance(under, ast.If) else ""
+                    condf = guards.norm(under.test, unparse) if isinstance(under, ast.If) and r in under.body else None
+                    ok_conds = (("lt", "0", "len(%s)" % w), ("truth", w), ("not", ("eq", "0", "len(%s)" % w)), ("not", ("lt", "len(%s)" % w, "1")))
                     if unparse(g.iter) != q or unparse(comp.value.elt) != v or len(comp.value.generators) != 1:
                         why = "waiting list is not built from the scanned class in order"
                     elif filt not in (["not%s.server" % v], ["%s.serverisFalse" % v], ["%s.server==False" % v]):
                         why = "filter is %s, expected `not %s.server` (customers without server)" % (filt, v)
-                    elif cond not in ("len(%s)>0" % w, "%s" % w, "len(%s)!=0" % w, "len(%s)>=1" % w):
+                    elif condf not in ok_conds:
                         why = "return is not under `len(%s) > 0`" % w
                     elif not (isinstance(r.value, ast.Call) and unparse(r.value.func) == "self.service_discipline" and r.value.args and unparse(r.value.args[0]) == w):
                         why = "does not return self.service_discipline(%s, ...)" % w
@@ -79,7 +80,7 @@ def disciplines(ctx, P):
             raise AnalysisError("discipline %s not found" % name)
         p = fn.args.args[0].arg
         rets = [x for x in ast.walk(fn) if isinstance(x, ast.Return)]
-        body = [s for s in fn.body if not (isinstance(s, ast.Expr) and isinstance(s.value, ast.Constant))]
+        body = body_stmts(fn)
         got = unparse(rets[0].value) if len(rets) == 1 else "?"
         ob.ok(name, "%s: return %s" % (name, got))
         if len(body) != 1 or got != f(p):
